@@ -285,6 +285,9 @@ func (fc *FnCtx) havocCall(st *State, call *ast.CallExpr, what string) []Val {
 	}
 	rs := fc.freshResults(st, call, "call")
 	if fn, _ := fc.calleeOf(call); fn != nil && fn.Pkg() != nil {
+		for i, a := range call.Args {
+			st.env[fmt.Sprintf("ghost.arg.%s.%d", fn.Name(), i)] = fc.tr(st, a)
+		}
 		st.env["ghost.called."+fn.Name()] = boolVal("true")
 		for i, rv := range rs {
 			st.env[fmt.Sprintf("ghost.ret.%s.%d", fn.Name(), i)] = rv
@@ -395,6 +398,12 @@ func (fc *FnCtx) trBuiltin(st *State, name string, call *ast.CallExpr) []Val {
 			}
 			return []Val{{T: cur, S: SStr, GT: base.GT}}
 		}
+		if base.S == SOL && !call.Ellipsis.IsValid() {
+			for _, a := range call.Args[1:] {
+				_ = fc.tr(st, a)
+			}
+			return []Val{{T: fmt.Sprintf("(+ %s %d)", base.T, len(call.Args)-1), S: SOL, GT: base.GT}}
+		}
 		for _, a := range call.Args[1:] {
 			_ = fc.tr(st, a)
 		}
@@ -418,6 +427,11 @@ func (fc *FnCtx) trBuiltin(st *State, name string, call *ast.CallExpr) []Val {
 				}
 			}
 			return []Val{{T: "emptysl", S: SSL, GT: t}}
+		case SOL:
+			if len(call.Args) >= 2 {
+				return []Val{{T: fc.tr(st, call.Args[1]).T, S: SOL, GT: t}}
+			}
+			return []Val{{T: "0", S: SOL, GT: t}}
 		case SMap:
 			v := fc.freshVal(st, "make", SMap, t)
 			st.fresh[v.Rec] = true
@@ -470,6 +484,8 @@ func (fc *FnCtx) lenOf(st *State, v Val, n ast.Node) Val {
 		return intVal("0")
 	case SLL:
 		return intVal(v.Rec)
+	case SOL:
+		return intVal(v.T)
 	}
 	fc.errorf("%s: len of unsupported sort", fc.posOf(n))
 	return fc.freshVal(st, "len", SInt, nil)
@@ -499,6 +515,20 @@ func (fc *FnCtx) trContractCall(st *State, call *ast.CallExpr) Val {
 		v := fc.tr(tmp, call.Args[0])
 		st.assume = tmp.assume
 		return v
+	case "forallStr":
+		fl, ok := call.Args[0].(*ast.FuncLit)
+		if !ok || len(fl.Body.List) != 1 {
+			fc.errorf("contract: forallStr(func(k string) bool { return ... })")
+			return boolVal("true")
+		}
+		ret, _ := fl.Body.List[0].(*ast.ReturnStmt)
+		kname := fl.Type.Params.List[0].Names[0].Name
+		bound := fc.freshName("qs_" + kname)
+		saved := fc.scope
+		fc.scope = &nameScope{vals: map[string]Val{kname: {T: bound, S: SStr}}, parent: saved}
+		body := fc.tr(st, ret.Results[0])
+		fc.scope = saved
+		return boolVal("(forall ((" + bound + " Str)) (=> (wfstr " + bound + ") " + body.T + "))")
 	case "implies", "ite", "iteS", "forall", "exists", "byteStr", "reMatch", "reGroup", "itoa", "reMatchDyn", "reSpan", "reAny", "reReplace":
 		return fc.trHelper(st, name, call)
 	}
@@ -656,6 +686,36 @@ func (fc *FnCtx) trContractCall2(st *State, call *ast.CallExpr, name string) Val
 			return boolVal("true")
 		}
 		return boolVal("false")
+	case "argOf":
+		id, _ := call.Args[0].(*ast.Ident)
+		bl, _ := call.Args[1].(*ast.BasicLit)
+		if id == nil || bl == nil {
+			fc.errorf("contract: argOf(name, i)")
+			return Val{S: SOpaque, T: "0"}
+		}
+		if v, ok := st.env["ghost.arg."+id.Name+"."+bl.Value]; ok {
+			return v
+		}
+		return Val{S: SNil, T: "0"}
+	case "atLoopEntry":
+		ls := fc.loopEntry[fc.curLoop]
+		if ls == nil {
+			fc.errorf("atLoopEntry() used outside a loop clause")
+			return fc.tr(st, call.Args[0])
+		}
+		tmp := &State{env: ls.env, assume: st.assume, guard: st.guard, fresh: ls.fresh}
+		v := fc.tr(tmp, call.Args[0])
+		st.assume = tmp.assume
+		return v
+	case "atHead":
+		if fc.headEnv == nil {
+			fc.errorf("atHead() used outside a loop body clause")
+			return fc.tr(st, call.Args[0])
+		}
+		tmp := &State{env: fc.headEnv, assume: st.assume, guard: st.guard, fresh: fc.headFresh}
+		v := fc.tr(tmp, call.Args[0])
+		st.assume = tmp.assume
+		return v
 	case "resultOf":
 		id, _ := call.Args[0].(*ast.Ident)
 		bl, _ := call.Args[1].(*ast.BasicLit)
@@ -875,6 +935,9 @@ func (fc *FnCtx) callByContract(st *State, call *ast.CallExpr, fn *types.Func, r
 	st.env["ghost.called."+fn.Name()] = boolVal("true")
 	for i, rv := range results {
 		st.env[fmt.Sprintf("ghost.ret.%s.%d", fn.Name(), i)] = rv
+	}
+	for i, av := range argVals {
+		st.env[fmt.Sprintf("ghost.arg.%s.%d", fn.Name(), i)] = av
 	}
 	if c.Opts["exits"] == "always" {
 		st.env["$outcome"] = Val{T: "exit", S: SOpaque}
